@@ -395,6 +395,9 @@ def r6_package_walk(ctx):
                         if isinstance(d.value, ast.AST) and any(isinstance(x, ast.Constant) and x.value == '__init__.py' for x in ast.walk(d.value)) and graph.in_loop_body(d.node, lp.ast):
                             if n not in pk_tests:
                                 pk_tests.append(n)
+            # ... or that mentions '__init__.py' itself (the condition written into the test)
+            if n not in pk_tests and any(isinstance(x, ast.Constant) and x.value == '__init__.py' for x in ast.walk(n.ast)):
+                pk_tests.append(n)
     # only tests that directly follow the definition (top-level in the loop body)
     pk_tests = [t for t in pk_tests if not any(fr.kind == 'loop' and fr.stmt is not lp.ast for fr in t.frames)]
     need(pk_tests, 'C07.R6: package test (__init__.py existence) not found in the walk loop')
